@@ -120,6 +120,7 @@ type nodeOpts struct {
 	utpLimit  int
 	queueCap  int
 	noWorkers bool
+	proto     portalwire.ProtocolId
 }
 
 func startNode(mn *memNet, r *rand.Rand, o nodeOpts) *realNode {
@@ -152,7 +153,10 @@ func startNode(mn *memNet, r *rand.Rand, o nodeOpts) *realNode {
 	utp := portalwire.NewZenEthUtp(context.Background(), conf, disc, conn)
 	queue := make(chan *portalwire.ContentElement, o.queueCap)
 	vc := cache.NewCache[*enode.Node, uint8]().WithMaxKeys(4096).WithTTL(time.Hour)
-	p, err := portalwire.NewPortalProtocol(conf, portalwire.History, key, conn, ln, disc, utp, o.store, queue, vc,
+	if o.proto == nil {
+		o.proto = portalwire.History
+	}
+	p, err := portalwire.NewPortalProtocol(conf, o.proto, key, conn, ln, disc, utp, o.store, queue, vc,
 		portalwire.WithDisableTableInitCheckOption(true))
 	if err != nil {
 		panic(err)
